@@ -177,8 +177,7 @@ def backtracks_after(names, t0):
 def c03_part(solver, op_line, out_line, st):
     """The C03 monitor through the solver's view (as checks/c03.py applies it)."""
     if solver.name == 'ocp':
-        import c13
-        return c13.monitor(op_line, out_line, st)
+        return LM.c13_part(op_line, out_line, st)
     if solver.name == 'fista':
         return c03.monitor(op_line, out_line, st, parse=solver.mod.parse_out)
     if solver.name == 'pantr':
@@ -195,8 +194,7 @@ def monitor(op_line, out_line, st, solver=None):
     want = op.nat('stopat', 0) or op.nat('stopcb', 0)
     if out_line.startswith('S exception'):
         if flavor == 'ocp':
-            import c13
-            return c13.monitor(op_line, out_line, st)       # unsupported criterion must throw, outputs untouched
+            return LM.c13_part(op_line, out_line, st)       # unsupported criterion must throw, outputs untouched
         return 'solver threw'
     # outputs: same consistency relations as any other exit (C03), status conditions (C06)
     if solver is None:
@@ -449,7 +447,7 @@ def main(argv):
         extra_gens=['gen_c19.py', 'gen_c15.py', 'gen_c07.py'],
         extra_sources=['Alpaqa/Gen/C19.lean', 'Alpaqa/Gen/C07.lean', 'Alpaqa/Model/C07.lean',
                        'Alpaqa/Proofs/C07.lean', 'Alpaqa/Proofs/C07Run.lean'],
-        n_quick=400, n_thorough=6000, sweep_quick=6, sweep_thorough=40,
+        n_quick=400, n_thorough=6000, sweep_quick=6, sweep_thorough=100,
         trusted_base=[
             'Lean 4.33 kernel + Mathlib (axioms: propext, Classical.choice, Quot.sound)',
             'translator gen_c19 (declaration / accesses of stop_flag in atomic-stop-signal.hpp, uses of '
